@@ -8,3 +8,9 @@ CHECKS = {'C20': {'kani': [
     K('registries::binder::unbind_token_step', profile='reg_cap8', functions=['token_binder::unbind_token', 'token_binder::get_token_index'], bounds=B),
     K('registries::binder::bind_token_step', profile='reg_cap8', functions=['token_binder::bind_token'], bounds=B),
 ]}}
+
+# macro composition / parameter shapes (harness-local functions carrying the real stellar_macros attributes)
+_M = dict(functions=['stellar_macros::only_owner', 'stellar_macros::only_admin', 'stellar_macros::only_role', 'stellar_macros::when_not_paused'],
+          bounds='five harness-local functions with stacked attributes (only_owner / only_admin / only_role above when_not_paused, when_not_paused above only_owner) and only_role on a borrowed &Address parameter; Paused, Owner, Admin, HasRole(caller, "minter") present/absent; symbolic authorization set')
+CHECKS['C16'] = {'kani': [K('gates::pausable::stacked_attribute_macros', **_M)]}
+CHECKS['C06'] = {'kani': [K('gates::pausable::stacked_attribute_macros', **_M)]}
